@@ -21,6 +21,19 @@ CLAIMS = {
         "whitespace table as transcribed. Axioms: none (Print Assumptions: closed under the global context).",
         "6 (C09)",
     ),
+    "C18": (
+        "Coq kernel evaluation (vm_compute, lifted with forallb_forall) of an operational import semantics on the module "
+        "graph regenerated from /repo by a translator on every run; validated against fresh interpreters",
+        "Theorems C18_single (every public module imports first in a fresh interpreter) and C18_pairs (all ordered pairs, "
+        "both orders succeed and bind the same names in every loaded module) are re-proved on every run over the module table "
+        "that translate/imports.py regenerates from the current source (finite domain, exhaustive in both tiers, decided in the "
+        "kernel). A re-introduced cycle breaks the proof; the check then replays the failing module(s) in real interpreters. "
+        "The translator's verdicts are validated each run against `python -c 'import m'` for all public modules and a sample "
+        "(quick) / all (thorough) unordered pairs in both orders.",
+        "Trusted: Coq kernel incl. vm_compute; translate/imports.py; Model/ImportSem.v as a formalisation of the import "
+        "protocol (function bodies not entered; external modules assumed importable). Axioms: none.",
+        "6 (C18)",
+    ),
 }
 
 NOT_YET = "check not built yet in this development (DESIGN.md section 8 gives the order of work)"
